@@ -41,54 +41,14 @@ RULE = (
 TOLERANCES = {"stored_values": 0.0, "kept_values": "equal value and shape (dtype/container type not judged)", "volume_unchanged_rel": 1e-12, "volume_fresh_rel": 1e-9}
 EXHAUSTIVE = {"quick": False, "thorough": False}
 EXHAUSTIVE_PART = "none (sampled histories)"
-FLOORS = {
-    "quick": {'restore.scope-judged': 700,
- 'restore.values-compared': 300000,
- 'restore.kept-compared': 60000,
- 'restore.nested-lifo': 400,
- 'restore.grid': 600,
- 'restore.grid-changed-in-scope': 60,
- 'restore.after-entry': 350,
- 'cache.obj': 6000,
- 'cache.material': 4000,
- 'cache.fresh-recompute': 35,
- 'copy.equal': 500,
- 'copy.alias-walk': 500,
- 'copy.mutation': 500,
- 'serial.fresh': 1200,
- 'serial.registry': 800,
- 'serial.after-db-load': 12,
- 'readonly.refused': 5000,
- 'readonly.setter-probe': 200,
- 'readonly.unchanged': 14,
- 'hook:StateRetainer.__exit__': 700,
- 'hook:ParameterCollection.restoreBackup': 6000,
- 'hook:StructuredGrid.restoreBackup': 600,
- 'hook:ParameterCollection.__deepcopy__': 5000},
-    "thorough": {'restore.scope-judged': 14000,
- 'restore.values-compared': 6000000,
- 'restore.kept-compared': 1200000,
- 'restore.nested-lifo': 8000,
- 'restore.grid': 12000,
- 'restore.grid-changed-in-scope': 1200,
- 'restore.after-entry': 7000,
- 'cache.obj': 120000,
- 'cache.material': 80000,
- 'cache.fresh-recompute': 700,
- 'copy.equal': 10000,
- 'copy.alias-walk': 10000,
- 'copy.mutation': 10000,
- 'serial.fresh': 24000,
- 'serial.registry': 16000,
- 'serial.after-db-load': 240,
- 'readonly.refused': 100000,
- 'readonly.setter-probe': 4000,
- 'readonly.unchanged': 280,
- 'hook:StateRetainer.__exit__': 14000,
- 'hook:ParameterCollection.restoreBackup': 120000,
- 'hook:StructuredGrid.restoreBackup': 12000,
- 'hook:ParameterCollection.__deepcopy__': 100000},
+_QUICK_FLOORS = {
+    "restore.scope-judged": 700, "restore.values-compared": 300000, "restore.kept-compared": 60000, "restore.nested-lifo": 400, "restore.grid": 600,
+    "restore.grid-changed-in-scope": 60, "restore.after-entry": 350, "cache.obj": 6000, "cache.material": 4000, "cache.fresh-recompute": 35,
+    "copy.equal": 500, "copy.alias-walk": 500, "copy.mutation": 500, "serial.fresh": 1200, "serial.registry": 800, "serial.after-db-load": 12,
+    "readonly.refused": 5000, "readonly.setter-probe": 200, "readonly.unchanged": 14,
+    "hook:StateRetainer.__exit__": 700, "hook:ParameterCollection.restoreBackup": 6000, "hook:StructuredGrid.restoreBackup": 600, "hook:ParameterCollection.__deepcopy__": 5000,
 }
+FLOORS = {"quick": _QUICK_FLOORS, "thorough": {k: 20 * v for k, v in _QUICK_FLOORS.items()}}
 TIMEOUT = {"quick": 900, "thorough": 7200}
 ASSUMPTIONS = [
     "database cases simulate a fresh process by dropping every live object and resetting parameterCollections.GLOBAL_SERIAL_NUM to -1 before Database.load",
@@ -1472,9 +1432,10 @@ def scope_case(rec, rng, rootkind, case):
         judge_geom = ctx.modes[0] == "empty" and lv in ("Reactor", "Core", "Assembly", "Block")
         if judge_geom:
             try:
-                snapA = geom_snapshot(root)
-                root.clearCache()
-                snapB = geom_snapshot(root)
+                # judged on the tree of the outermost scope only: an inner scope opened on an ancestor may legitimately keep edits elsewhere
+                snapA = geom_snapshot(target)
+                target.clearCache()
+                snapB = geom_snapshot(target)
                 ok, why = snap_close(snapA, snapB, TOLERANCES["volume_fresh_rel"])
                 if not ok:
                     rec.skip("cache law not judged: state before the scope already differs from a fresh recomputation (direct assignments in the prelude)")
@@ -1485,13 +1446,13 @@ def scope_case(rec, rng, rootkind, case):
         run_level(ctx, 0, maxdepth, target)
         if snapB is not None:
             try:
-                snapC = geom_snapshot(root)
+                snapC = geom_snapshot(target)
                 rec.hit("cache.fresh-recompute")
                 ok, why = snap_close(snapB, snapC, TOLERANCES["volume_unchanged_rel"])
                 if not ok:
                     rec.violation("cache/volume-differs-from-pre-scope", "volume/area/mass reported after the scope differs from before it: " + why, w)
-                root.clearCache()
-                snapD = geom_snapshot(root)
+                target.clearCache()
+                snapD = geom_snapshot(target)
                 ok, why = snap_close(snapC, snapD, TOLERANCES["volume_fresh_rel"])
                 if not ok:
                     rec.violation("cache/volume-differs-from-fresh-recomputation", "value reported after the scope differs from a fresh recomputation: " + why, w)
